@@ -39,7 +39,7 @@ def alphabet(n):
     import os
     import yaml
     names = set()
-    p = '/repo/pgradd/data/BensonGA/gas_benson'
+    p = os.path.join(__import__('vf.symkit').symkit.REPO, 'pgradd/data/BensonGA/gas_benson')
     for fn in sorted(os.listdir(p)):
         if fn.endswith('.yaml'):
             try:
